@@ -133,7 +133,8 @@ class C14(Prop):
                     yield {'kind': 'launch', 'pilots': [[u + 1, r, s] for u, (r, s) in enumerate(assign)],
                            'fails': fl, 'cancelled': [], 'single': False}
         evs = [['lifetime', False, True], ['lifetime', True, False], ['lifetime', True, True],
-               ['cancel', True], ['cancel', False], ['terminate'],
+               ['cancel', True], ['cancel', False], ['cancel', False, 'empty'], ['cancel', True, 'among'],
+               ['terminate'],
                ['service', True, True], ['service', True, False], ['service', False, True],
                ['heartbeat', True], ['other']]
         maxlen = 3 if tier == 'quick' else 4
@@ -287,8 +288,16 @@ class C14(Prop):
                         a._check_lifetime()
                 elif e[0] == 'cancel':
                     # through the real dispatcher of control messages
-                    a.control_cb('control_pubsub', {'cmd': 'cancel_pilots',
-                                                    'arg': {'uids': ['pilot.0000' if e[1] else 'pilot.0009']}})
+                    # the uid list of the request: this pilot alone or among others; another pilot; or EMPTY -- what
+                    # a pilot manager that owns no pilot publishes on close() / cancel_pilots() (forwarded to every
+                    # agent of the session): it names nobody
+                    shape = e[2] if len(e) > 2 else None
+                    uids = ['pilot.0000'] if e[1] else ['pilot.0009']
+                    if shape == 'empty':
+                        uids = []
+                    if shape == 'among':
+                        uids = ['pilot.0009', 'pilot.0000', 'pilot.0010']
+                    a.control_cb('control_pubsub', {'cmd': 'cancel_pilots', 'arg': {'uids': uids, 'pmgr': 'pmgr.0001'}})
                 elif e[0] == 'service':
                     a.control_cb('control_pubsub', {'cmd': 'service_info',
                                                     'arg': {'uid': 'service.0000' if e[1] else 'service.0007',
